@@ -92,7 +92,9 @@ class C32(Property):
         for k in range(n):
             yield {'gen_seed': rng.randrange(10 ** 9),
                    'opts': {'safe_indices': True, 'shuffle_order': True, 'cycles': k % 2 == 0,
-                            'chains': rng.random() < 0.5}}
+                            'chains': rng.random() < 0.5, 'auto_ivc': rng.random() < 0.6},
+                   # a second Problem.setup() must order the model again from the declared order
+                   'resetup': rng.random() < 0.4}
 
     def _md(self, case):
         return gm.gen_md(random.Random(case['gen_seed']), **case['opts'])
@@ -124,6 +126,28 @@ class C32(Property):
                 p.setup()
                 gm.set_auto_ivc_values(p, md)
                 p.run_model()
+                if case.get('resetup'):
+                    rec0, log0 = list(rec), list(log)
+                    del rec[:]
+                    del log[:]
+                    try:
+                        p.setup()
+                        gm.set_auto_ivc_values(p, md)
+                        p.run_model()
+                    except RuntimeError as e:
+                        # seen on the unchanged tree: a second setup() of a model whose promotes()
+                        # carry multi-dimensional src_indices can be rejected ("Can't promote ... shape
+                        # ... is incompatible").  A loud setup error, not an ordering matter: fall back
+                        # to the first pass and count it.
+                        res['resetup_error'] = str(e)[:200]
+                        rec[:] = rec0
+                        log[:] = log0
+                        p, info = gm.build_problem(md, log=log, cfg={'auto_order': True})
+                        del rec[:]
+                        del log[:]
+                        p.setup()
+                        gm.set_auto_ivc_values(p, md)
+                        p.run_model()
                 res['rec'] = rec
                 res['exec'] = [l[0] for l in log]
                 res['final_order'] = {path: list(g._subsystems_allprocs)
@@ -210,7 +234,9 @@ class C32(Property):
 
     def bucket(self, case, impl):
         md = self._md(case)
-        b = ['cyclic' if md['cyclic'] else 'acyclic', 'impl_error' if 'error' in impl else 'impl_ok']
+        b = ['cyclic' if md['cyclic'] else 'acyclic', 'impl_error' if 'error' in impl else 'impl_ok',
+             'second_setup_rejected' if impl.get('resetup_error') else
+             'second_setup' if case.get('resetup') else 'single_setup']
         for r in impl.get('rec', []):
             b.append('group_reordered' if r['out_of_order'] else 'group_in_order')
             if any(len(s) > 1 for s in r['sccs']):
